@@ -7,11 +7,13 @@ import Hive.Canon
 import Hive.Monitor
 import Hive.MonitorTrav
 import Hive.Stack
+import Hive.Ledger
 
 open Lean Hive
 
 structure DState where
   mechs : List Mech := []
+  ledger : Ledger := {}
 
 def getField {α} [FromJson α] (j : Json) (k : String) : Except String α :=
   match j.getObjVal? k with
@@ -55,7 +57,7 @@ def violAtomic (pre post : Sim) (i : Instr) : List String :=
 
 /-- handle one phase record: run the model from the implementation's pre-state, compare with the
     implementation's post-state, evaluate the monitors on the implementation's post-state -/
-def handlePhase (st : DState) (op : String) (j : Json) : Except String Json := do
+def handlePhase (st : DState) (op : String) (j : Json) : Except String (Ledger × Json) := do
   let oracle : Oracle ← optField j "oracle" {}
   let pre : Sim ← getField j "pre"
   let env := oracle.env st.mechs
@@ -67,14 +69,22 @@ def handlePhase (st : DState) (op : String) (j : Json) : Except String Json := d
       pure (some (applyInstructions env w0 instrs))
     | "update" => pure (some (vehicleUpdates env w0))
     | "tick" => pure (some { w0 with sim := w0.sim.tick })
+    | "pre" => do
+      -- request arrivals / cancellations done by the harness through the real state operations:
+      -- the model replays them from the recorded event list
+      let adds : List Request ← optField j "adds" []
+      let cancels : List RequestId ← optField j "cancels" []
+      let s1 := adds.foldl (fun s r => match s.addRequest env r with | .ok s' => s' | _ => s) w0.sim
+      let s2 := cancels.foldl (fun s i => match s.removeRequest env i with | .ok s' => s' | _ => s) s1
+      pure (some { sim := s2, log := adds.map (fun r => Event.addRequest r.id) ++ cancels.map Event.cancelRequest })
     | _ => throw s!"unknown phase {op}"
   let postJ := (j.getObjVal? "post").toOption.getD .null
   let evs : List Event ← optField j "events" []
   let cmpEvents : Bool ← optField j "cmp_events" true
   match modelRes, postJ with
-  | none, .null => pure (Json.mkObj [("diff", strs []), ("mon", strs [])])
-  | none, _ => pure (Json.mkObj [("diff", strs ["model: call raises; impl returned a state"]), ("mon", strs [])])
-  | some _, .null => pure (Json.mkObj [("diff", strs ["impl: call raised; model returns a state"]), ("mon", strs [])])
+  | none, .null => pure (st.ledger, Json.mkObj [("diff", strs []), ("mon", strs [])])
+  | none, _ => pure (st.ledger, Json.mkObj [("diff", strs ["model: call raises; impl returned a state"]), ("mon", strs [])])
+  | some _, .null => pure (st.ledger, Json.mkObj [("diff", strs ["impl: call raised; model returns a state"]), ("mon", strs [])])
   | some w, pj => do
     let post : Sim ← match fromJson? pj with
       | .ok a => pure a
@@ -92,8 +102,10 @@ def handlePhase (st : DState) (op : String) (j : Json) : Except String Json := d
           | true, [i] => violAtomic pre post i
           | _, _ => [])
       | _ => pure []
-    let mon := monitorAll env post ++ viol04 cap post ++ viol04Step pre post ++ viol05Step isEl pre post evs ++ single
-    pure (Json.mkObj [("diff", strs d), ("mon", strs mon)])
+    let probe : Bool ← optField j "probe" false
+    let (ledger', lv) := if probe then (st.ledger, []) else st.ledger.phase pre post evs
+    let mon := monitorAll env post ++ viol04 cap post ++ viol04Step pre post ++ viol05Step isEl pre post evs ++ single ++ lv
+    pure (ledger', Json.mkObj [("diff", strs d), ("mon", strs mon)])
 
 /-- function-level record: `traverse(route, dt)` -/
 def handleTraverse (j : Json) : Except String Json := do
@@ -177,11 +189,11 @@ def handle (st : DState) (line : String) : DState × Json :=
     match op with
     | "cfg" =>
       match (getField j "mechs" : Except String (List Mech)) with
-      | .ok ms => ({ st with mechs := ms }, withId (Json.mkObj [("ok", true)]))
+      | .ok ms => ({ mechs := ms, ledger := {} }, withId (Json.mkObj [("ok", true)]))
       | .error e => (st, withId (Json.mkObj [("error", Json.str e)]))
-    | "apply" | "update" | "tick" =>
+    | "apply" | "update" | "tick" | "pre" =>
       match handlePhase st op j with
-      | .ok r => (st, withId r)
+      | .ok (l, r) => ({ st with ledger := l }, withId r)
       | .error e => (st, withId (Json.mkObj [("error", Json.str e)]))
     | "stack" =>
       match (do
